@@ -257,29 +257,64 @@ func (f *Frame) modelSortSlice(c *ssa.CallCommon, pos token.Pos) (EV, bool) {
 	inv := vc.fresh("perminv", "(Array Int Int)")
 	vc.assume(fmt.Sprintf("(forall ((k Int)) (! (=> (and (<= 0 k) (< k %s)) (and (<= 0 (select %s k)) (< (select %s k) %s) (= (select %s (select %s k)) k) (= (select %s k) (select (el_%s %s) (select %s k))))) :pattern ((select %s k))))",
 		n, perm, perm, n, inv, perm, arr, old.s, old.t, perm, arr))
-	vc.assume(fmt.Sprintf("(forall ((k Int)) (! (=> (and (<= 0 k) (< k %s)) (and (<= 0 (select %s k)) (< (select %s k) %s) (= (select %s (select %s k)) k))) :pattern ((select %s k))))",
-		n, inv, inv, n, perm, inv, inv))
+	// every old element occurs in the sorted slice (at position inv[k])
+	vc.assume(fmt.Sprintf("(forall ((k Int)) (! (=> (and (<= 0 k) (< k %s)) (and (<= 0 (select %s k)) (< (select %s k) %s) (= (select %s (select %s k)) k) (= (select %s (select %s k)) (select (el_%s %s) k)))) :pattern ((select (el_%s %s) k)) :pattern ((select %s k))))",
+		n, inv, inv, n, perm, inv, arr, inv, old.s, old.t, old.s, old.t, inv))
 	f.storePtr(f.cur, src, nv)
-	// ordering: evaluate less(j, i) symbolically for quantified i<j by inlining the closure with symbolic indices
+	// ordering (A-SORT): for all 0 <= qi < qj < n : !less(qj, qi) on the sorted slice. The closure body is evaluated once
+	// with two fresh index constants; every constant it introduces becomes a function of (qi, qj) (skolem functions),
+	// so the captured definitions and the result can be universally quantified.
 	lessEV := f.val(c.Args[1])
 	cl, ok := lessEV.(*Closure)
 	if !ok {
 		vc.errf("sort.Slice: less is not a closure literal")
 		return Tuple{}, true
 	}
-	i := vc.fresh("sort_i", SInt)
-	j := vc.fresh("sort_j", SInt)
+	ci := vc.fresh("sort_i", SInt)
+	cj := vc.fresh("sort_j", SInt)
+	n0, d0 := len(vc.asserts), len(vc.decls)
 	save := vc.specMode
 	vc.specMode = true
-	res, _, _ := f.inlineCall(cl.fn, []EV{Val{j, SInt, types.Typ[types.Int]}, Val{i, SInt, types.Typ[types.Int]}}, cl.bindings, f.cur.clone(), "true")
+	res, _, _ := f.inlineCall(cl.fn, []EV{Val{cj, SInt, types.Typ[types.Int]}, Val{ci, SInt, types.Typ[types.Int]}}, cl.bindings, f.cur.clone(), "true")
 	vc.specMode = save
-	if len(res) == 1 {
-		if lv, ok := evAsVal(res[0]); ok {
-			// instantiated (not quantified) form: sort_i and sort_j are skolem-style universals. To keep it sound we
-			// can only assert it for the two index constants; the contract layer refers to them as sort_i / sort_j.
-			vc.sortFacts = append(vc.sortFacts, sortFact{i, j, n, lv.t})
-		}
+	if len(res) != 1 {
+		vc.errf("sort.Slice: cannot evaluate less")
+		return Tuple{}, true
 	}
+	lv, ok := evAsVal(res[0])
+	if !ok {
+		vc.errf("sort.Slice: less has a non-scalar result")
+		return Tuple{}, true
+	}
+	captured := append([]string{}, vc.asserts[n0:]...)
+	newDecls := append([]string{}, vc.decls[d0:]...)
+	for _, a := range captured {
+		delete(vc.assertSet, a)
+	}
+	vc.asserts = vc.asserts[:n0]
+	vc.decls = vc.decls[:d0]
+	subst := []string{ci, "sort_qi", cj, "sort_qj"}
+	for _, d := range newDecls {
+		name := declName(d)
+		delete(vc.declSet, name)
+		if !strings.HasPrefix(d, "(declare-const ") || !strings.Contains(name, "!") {
+			// functions, and initial-state cell constants (|key@gen|), keep their global meaning
+			vc.declSet[name] = true
+			vc.decls = append(vc.decls, d)
+			continue
+		}
+		srt := strings.TrimSuffix(strings.TrimSpace(d[len("(declare-const ")+len(name):]), ")")
+		fn := strings.TrimSuffix(name, "|") + "_f|"
+		vc.declareFun(fn, []Sort{SInt, SInt}, srt)
+		subst = append(subst, name, "("+fn+" sort_qi sort_qj)")
+	}
+	rep := strings.NewReplacer(subst...)
+	var body []string
+	for _, a := range captured {
+		body = append(body, rep.Replace(a))
+	}
+	body = append(body, not(rep.Replace(lv.t)))
+	vc.assume(fmt.Sprintf("(forall ((sort_qi Int) (sort_qj Int)) (! (=> (and (<= 0 sort_qi) (< sort_qi sort_qj) (< sort_qj %s)) %s) :pattern ((select %s sort_qi) (select %s sort_qj))))", n, and(body...), arr, arr))
 	return Tuple{}, true
 }
 
